@@ -1,7 +1,7 @@
 (* C12 - discriminated unions pick exactly the tagged class in any definition order.
    Model: Verif.Discr (state machine), reference notions: Verif.DiscrSpec. *)
 From Coq Require Import List Arith Bool.
-From Verif Require Import Discr DiscrSpec DiscrProofs.
+From Verif Require Import Discr DiscrSpec DiscrProofs DiscrKF.
 Import ListNotations.
 
 (* invariant over arbitrary histories: every registry of every site holds only true bindings
@@ -102,6 +102,17 @@ Proof.
   apply desc_child. exists (Cls [0] [1] [] []). split; [reflexivity | left; reflexivity].
 Qed.
 Print Assumptions C12_class_level_self_excluded.
+
+(* Known finding C12/nofield-inherited-unpacker, exhibited in the faithful model DiscrKF (no-field mode through a
+   nailed holder over plain dataclasses): once C0's unpacker is compiled, C1(C0) - eligible and accepting - is skipped,
+   which contradicts the no-field clause; without the earlier decode the same call answers C1. *)
+Theorem C12_nofield_inherited_unpacker_refuted :
+  nth_error (krun kf_sites (kf_pre ++ [Decode 1 None [0; 1]])) 3 = Some (Some ONotFound)
+  /\ ~ nofield_spec acc_req (defs kf_pre) (Site [1] false true false false false false) [0; 1] ONotFound
+  /\ nofield_spec acc_req (defs kf_pre) (Site [1] false true false false false false) [0; 1] (OInst 1)
+  /\ nth_error (krun kf_sites [Define [] [] [] [0]; Define [0] [] [] [1]; Decode 1 None [0; 1]]) 2 = Some (Some (OInst 1)).
+Proof. exact nofield_inherited_unpacker_refuted. Qed.
+Print Assumptions C12_nofield_inherited_unpacker_refuted.
 
 (* ---- non-vacuity: the hypotheses of C12_registry hold on a history with a stale registry, a class
    without own tag, a class defined after the first call, and the conclusion pins the late class *)
